@@ -67,7 +67,10 @@ def use_repo():
     for name in list(sys.modules):
         if name == "spec_classes" or name.startswith("spec_classes."):
             del sys.modules[name]
-    import spec_classes  # noqa: F401
+    import sched as _sched  # harness/sched.py (not the stdlib module: harness/ is first on sys.path)
+
+    with _sched.lock_factories_installed():
+        import spec_classes  # noqa: F401
 
     src = Path(sys.modules["spec_classes"].__file__).resolve()
     if REPO.resolve() not in src.parents:
